@@ -1,4 +1,5 @@
 import OdxVerif.Proofs.CompReject
+import OdxVerif.Proofs.ItemLoop
 /-! Compositional tier, rejection side (task W14, C04), closure of `DDesc.Ok` under the field kinds: a STATIC-FIELD /
     DYNAMIC-LENGTH-FIELD / END-OF-PDU-FIELD over an item description `item` accepts exactly the lists whose elements the item
     accepts (static: the right number of them, each ending within ITEM-BYTE-SIZE; dynamic: a number the count object can
@@ -258,12 +259,10 @@ theorem encodeItems_rej (item : DDesc) (hok : item.Ok) (hne : item.mayEop = fals
       | nil =>
         obtain ⟨e, s', hrun, he⟩ := hok.rej x h1 f (by omega) { s with isEndOfPdu := eop } hcb
           (fun h => by rw [hne] at h; cases h)
-        refine ⟨e, s', ?_, he.and_left _⟩
-        simp only [encodeItems, bind, run_bind, run_modifyS, hrun]
+        exact ⟨e, s', encodeItems_one_err _ eop f x s true _ hrun, he.and_left _⟩
       | cons y rest2 =>
         obtain ⟨e, s', hrun, he⟩ := hok.rej x h1 f (by omega) s hcb (fun h => by rw [hne] at h; cases h)
-        refine ⟨e, s', ?_, he.and_left _⟩
-        simp only [encodeItems, bind, run_bind, hrun]
+        exact ⟨e, s', encodeItems_cons_err _ eop f x y rest2 s true _ hrun, he.and_left _⟩
     | some c =>
       have hc := hok.acc x c h1
       have h2 : item.fillItems (fun _ => true) rest = none := by
@@ -278,10 +277,13 @@ theorem encodeItems_rej (item : DDesc) (hok : item.Ok) (hne : item.mayEop = fals
           intro he; have := hc.eop he; rw [hne] at this; cases this
         obtain ⟨s1, hrun1, _, hcb1⟩ := hc.ok.encode_eq f (by have := hc.need; omega) s hcb hnoe
         rw [hc.dop, hc.sup] at hrun1
-        obtain ⟨e, s', hrun, he⟩ := ih h2 f (by simp only [List.length_cons] at hfu ⊢; omega) s1 hcb1
-        refine ⟨e, s', ?_, he.and_right _⟩
-        simp only [encodeItems, bind, run_bind, hrun1]
-        exact hrun
+        -- (fix c04-field-item-consumes-nothing) an accepted item that leaves the cursor where it was: EncodeError
+        by_cases hadv : s.cursorByte < s1.cursorByte
+        · obtain ⟨e, s', hrun, he⟩ := ih h2 f (by simp only [List.length_cons] at hfu ⊢; omega) s1 hcb1
+          refine ⟨e, s', ?_, he.and_right _⟩
+          rw [encodeItems_cons_ok _ eop f x y rest2 s s1 true hrun1 hadv]
+          exact hrun
+        · exact ⟨.encode, s1, encodeItems_cons_stuck _ eop f x y rest2 s s1 hrun1 (by omega), RejErr.encode _⟩
 
 /-! ### DYNAMIC-LENGTH-FIELD -/
 
